@@ -338,12 +338,30 @@ pub fn gen_file(rng: &mut Rng, format: Format, protein: bool, n_records: usize) 
                         } else {
                             rng.below(1 << 24) as f64
                         };
-                        cells[i][col] = c;
-                        if float_counts {
-                            text.push_str(&format!("{:.2}", c));
-                        } else {
-                            text.push_str(&format!("{}", c as u64));
+                        let mut c = c;
+                        let mut written = if float_counts { format!("{:.2}", c) } else { format!("{}", c as u64) };
+                        if float_counts && rng.chance(0.2) {
+                            // scientific notation, with and without a decimal point in the mantissa
+                            // (what Python's repr and C's %g print); values exact in f32
+                            let mant = rng.range(1, 99) as f64;
+                            let (e, txt) = match rng.below(5) {
+                                0 => (1i32, format!("{}e1", mant)),
+                                1 => (3, format!("{}E3", mant)),
+                                2 => (-1, format!("{}e-1", mant * 5.0)),
+                                3 => (2, format!("{:.1}e2", mant / 2.0)),
+                                _ => (0, format!("{}e+0", mant)),
+                            };
+                            c = match e {
+                                1 => mant * 10.0,
+                                3 => mant * 1000.0,
+                                -1 => mant * 0.5,
+                                2 => mant * 50.0,
+                                _ => mant,
+                            };
+                            written = txt;
                         }
+                        cells[i][col] = c;
+                        text.push_str(&written);
                     }
                     if rng.chance(0.7) {
                         text.push_str(&gap(rng));
@@ -377,6 +395,11 @@ pub fn gen_file(rng: &mut Rng, format: Format, protein: bool, n_records: usize) 
                 let id_line = if rng.chance(0.5) { format!("{} {}", id, word(rng, 3, 9)) } else { id.clone() };
                 text.push_str(&id_line);
                 text.push('\n');
+                // real UniPROBE downloads put an empty line between the header and the matrix
+                let inner_blank = rng.chance(0.25);
+                if inner_blank && rng.chance(0.7) {
+                    text.push_str(*rng.pick(&["\n", " \n", "\n\n"]));
+                }
                 let mut rows: Vec<(char, usize)> = syms[..k - 1].to_vec();
                 if rng.chance(0.5) {
                     rng.shuffle(&mut rows);
@@ -393,7 +416,10 @@ pub fn gen_file(rng: &mut Rng, format: Format, protein: bool, n_records: usize) 
                         strs[i][j] = s;
                     }
                 }
-                for &(ch, col) in &rows {
+                for (ri, &(ch, col)) in rows.iter().enumerate() {
+                    if inner_blank && ri > 0 && rng.chance(0.2) {
+                        text.push('\n');
+                    }
                     text.push(ch);
                     text.push(':');
                     for i in 0..w {
